@@ -1,5 +1,6 @@
 import Qfx.Drv.Util
 import Qfx.Spec.Values
+import Qfx.Model.Decimal
 namespace Qfx.Drv
 open Qfx Qfx.Spec
 
@@ -10,6 +11,29 @@ def verdict (bad : List String) : String :=
 def splitObs (w : List String) : List String × List String :=
   (w.takeWhile (· ≠ "=>"), (w.dropWhile (· ≠ "=>")).drop 1)
 
+/-- the written text reads back, has exactly `sc` decimals, and is the input rounded half away from zero
+    (`trunc`: cut toward zero); a negative sign only on a non-zero result of a negative input -/
+def monDecWrite (trunc : Bool) (b : Bytes) (sc : Nat) (obs : List String) : List String :=
+  match Qfx.Dec.readDec b, obs with
+  | .ok d, [h] =>
+    (match fromHex h with
+     | some o =>
+       (match Qfx.Dec.readDec o with
+        | .ok r =>
+          let k := d.scale
+          (if r.scale = sc then [] else ["dec_write_scale"]) ++
+          (if trunc then
+             (if r.mag * 10 ^ k ≤ d.mag * 10 ^ sc ∧ d.mag * 10 ^ sc < (r.mag + 1) * 10 ^ k then [] else ["udec_write_not_truncated"])
+           else
+             (if 2 * r.mag * 10 ^ k ≤ 2 * d.mag * 10 ^ sc + 10 ^ k ∧ 2 * d.mag * 10 ^ sc < 2 * r.mag * 10 ^ k + 10 ^ k then []
+              else ["dec_write_not_half_away"])) ++
+          (if r.neg = (d.neg && r.mag != 0) then [] else ["dec_write_sign"]) ++
+          (if o.head? == some 43 || (o.head? == some 45 && !r.neg) then ["dec_write_not_canonical"] else [])
+        | _ => ["dec_write_unreadable_output"])
+     | none => ["dec_write_bad_obs"])
+  | .ok _, _ => ["dec_write_failed_on_readable_input"]
+  | _, _ => []
+
 def valMonStep (_ : Unit) (w : List String) : Unit × String :=
   let (op, obs) := splitObs w
   ((), match op with
@@ -18,6 +42,11 @@ def valMonStep (_ : Unit) (w : List String) : Unit × String :=
   | ["bool", "read", h] => (match fromHex h with | some b => verdict (monBool b obs) | none => "bad-op")
   | ["bool", "write", v] => if (v == "y" && obs == ["59"]) || (v == "n" && obs == ["4e"]) then "ok" else "bad bool_write_wrong"
   | ["float", "read", h] => (match fromHex h with | some b => verdict (monFloat b obs) | none => "bad-op")
+  | ["dec", "write", h, sc] => (match fromHex h, sc.toNat? with
+      | some b, some sc => verdict (monDecWrite false b sc obs) | _, _ => "bad-op")
+  | ["udec", "write", h, sc] => (match fromHex h, sc.toNat? with
+      | some b, some sc => verdict (monDecWrite true b sc obs) | _, _ => "bad-op")
+  | ["dec", "read", _] => "ok"
   | ["str", "read", h] => if obs == ["ok", h] then "ok" else "bad str_not_identity"
   | ["ts", "read", h] => (match fromHex h with | some b => verdict (monTsRead b obs) | none => "bad-op")
   | "ts" :: "write" :: p :: rest => (match rest.mapM (·.toNat?) with
